@@ -411,7 +411,7 @@ PROPS = {
                       'and the loader log is exactly: one Load+Parse per node in discovery order, then one Compile per node in that order. Load-once, parse-once, compile-once, '
                       'compile-after-imports, no self import / acyclicity (so a cyclic graph can only give Err) and validity of every imported locator are lemmas over that contract. '
                       'All unwrap/expect sites are proved unreachable, and the work-list loop terminates (lexicographic measure: undiscovered locators, queue length).',
-        'level_note': 'Trusted: petgraph Graph::{add_node,add_edge,node_weight} and toposort (Ok ==> topological order; Err ==> node id in range), HashMap via vstd, ModuleSet::{new,insert,get} as a map, '
+        'level_note': 'Trusted: petgraph Graph::{add_node,add_edge,node_weight} and toposort (Ok ==> topological order; Err ==> node id in range), HashMap via vstd (ModuleSet is the real struct with its real methods new/base/main/insert/len/is_empty/get since 12.20; `HashMap::from([(k, v)])` is a one-entry shim), '
                       'Locator::join as a function (join_id), Program::imports returns the import strings of the tree, Loader implementations satisfy the ghost-log contract. '
                       'Termination of the work list is proved under the stated assumption that the loader can declare only finitely many locators valid (ghost `universe`). Which error is reported first and the order among independent modules are not decided.',
         'design_ref': 'DESIGN.md section 5, C10',
